@@ -291,8 +291,9 @@ func plencValue(tag string) (int, error) {
 }
 
 func quote(tag string) string {
-	if strings.Contains(tag, "`") {
-		// Can't be written as a raw string
+	if !strconv.CanBackquote(tag) {
+		// Can't be written as a raw string: a backquote would end it, and a
+		// carriage return (among others) would not survive in it
 		return strconv.Quote(tag)
 	}
 	return "`" + tag + "`"
